@@ -20,6 +20,18 @@ pub enum SinkMsg {
 impl Message for SinkMsg {}
 pub struct WrongMsg(pub u32);
 impl Message for WrongMsg {}
+// a sub-message type of the wrong message type: DerivedActorRef<u8> made from a mis-typed ActorRef<WrongMsg>
+impl From<u8> for WrongMsg {
+    fn from(v: u8) -> Self {
+        WrongMsg(v as u32)
+    }
+}
+impl TryFrom<WrongMsg> for u8 {
+    type Error = ();
+    fn try_from(v: WrongMsg) -> Result<u8, ()> {
+        u8::try_from(v.0).map_err(|_| ())
+    }
+}
 pub enum WrongAsk {
     Ask(RpcReplyPort<u32>),
 }
@@ -117,6 +129,14 @@ async fn wrong(actor: ActorRef<SinkMsg>) {
     yield_once().await;
     let r = matches!(ractor::rpc::cast(&cell, WrongMsg(3)), Err(MessagingErr::InvalidActorType));
     verif::emit_kv("obs.wrong_ret", 0, i64::from(r), vec![kvs("via", "cell_cast")]);
+    yield_once().await;
+    // a derived reference of a mis-typed reference is as mis-typed as its source
+    let d = w.get_derived::<u8>();
+    let r = matches!(d.send_message(4u8), Err(MessagingErr::InvalidActorType));
+    verif::emit_kv("obs.wrong_ret", 0, i64::from(r), vec![kvs("via", "derived_send")]);
+    yield_once().await;
+    let r = matches!(d.cast(5u8), Err(MessagingErr::InvalidActorType));
+    verif::emit_kv("obs.wrong_ret", 0, i64::from(r), vec![kvs("via", "derived_cast")]);
     yield_once().await;
     let r = matches!(
         wa.call(WrongAsk::Ask, Some(std::time::Duration::from_millis(20))).await,
